@@ -303,6 +303,8 @@ func placeExec(c *Ctx, op string) {
 				el := filepath.Join(filepath.Dir(d), "elsewhere")
 				if ents, e := os.ReadDir(el); e != nil || len(ents) != 1 || ents[0].Name() != "precious" {
 					c.PropFail("placement-tree", fmt.Sprintf("unpack(%s) onto a destination that is a symlink to a directory changed / hid the directory the link points at", mode), op)
+					// (what the link points at lies outside the target: the same observation, seen from C06)
+					c.PropFail("escape", fmt.Sprintf("unpack(%s) onto a target path that is a symlink to a directory deleted or changed the content of that directory — an object outside the target", mode), op)
 				}
 				if mounted(el) {
 					c.PropFail("mount-left", fmt.Sprintf("unpack(%s) onto a symlink destination mounted the ware on the link's target", mode), op)
